@@ -36,9 +36,15 @@ def judge(events, zones, workdir, tag="t", module="Trace", locales=None):
         json.dump(zones, f, separators=(",", ":"))
     meta = os.path.join(workdir, tag + ".meta")
     t0 = time.time()
-    rc, out = _tlc(["-workers", "1", "-metadir", meta, "-noGenerateSpecTE", "-config", module + ".cfg",
-                    module + ".tla"], {"PV_TRACE": tf, "PV_ZONES": zf, "PV_LOCALES": locales or ""}, SPEC)
-    shutil.rmtree(meta, ignore_errors=True)
+    for attempt in range(3):
+        rc, out = _tlc(["-workers", "1", "-metadir", meta, "-noGenerateSpecTE", "-config", module + ".cfg",
+                        module + ".tla"], {"PV_TRACE": tf, "PV_ZONES": zf, "PV_LOCALES": locales or ""}, SPEC)
+        shutil.rmtree(meta, ignore_errors=True)
+        # a JVM that could not start or was killed under memory pressure says nothing about the spec: retry;
+        # an evaluation error of the spec (overflow, missing field, ...) is reported by TLC as "Error:"
+        if rc == 0 or "Error:" in out:
+            break
+        time.sleep(2 + 3 * attempt)
     res = {}
     consumed = None
     for line in out.splitlines():
